@@ -320,6 +320,7 @@ func (rd *c11sRound) stallConnect(st *c11sStaller) bool {
 		op, payload, err := r.readFrame()
 		if err != nil {
 			vc.Note = "waiting for the peer list: " + err.Error()
+			rd.afterCase(vc)
 			return false
 		}
 		var env protocol.Envelope
@@ -398,6 +399,7 @@ func (rd *c11sRound) stallFill(st *c11sStaller) {
 		nf, ok := c11sRouteProbe(flooder, []string{vc.ID}, fmt.Sprintf("nobody-reg-%s-%d", vc.ID, k))
 		if !ok {
 			vc.Note = "registration probe not answered"
+			rd.suspectStall("a non-reader's registration probe on the session's sender was not answered")
 			return
 		}
 		if !nf[vc.ID] {
@@ -420,6 +422,7 @@ func (rd *c11sRound) stallFill(st *c11sStaller) {
 		nf, ok := c11sRouteProbe(flooder, []string{vc.ID}, fmt.Sprintf("nobody-flood-%s-%d", vc.ID, n))
 		if !ok {
 			vc.Note = "flood marker not answered"
+			rd.suspectStall("a non-reader's flood marker on the session's sender was not answered")
 			return
 		}
 		if nf[vc.ID] {
@@ -466,11 +469,11 @@ func (rd *c11sRound) stallOverflow(st *c11sStaller) {
 // runStaller is the life of one non-reader: connect, stop reading, get flooded, stay, go.
 func (rd *c11sRound) runStaller(st *c11sStaller) {
 	defer close(st.gone)
-	ok := rd.stallConnect(st)
-	if ok {
+	ok := !rd.aborted.Load() && rd.stallConnect(st)
+	if ok && !rd.aborted.Load() {
 		rd.stallFill(st)
 		st.vc.Reached = st.info.Blocked
-		if st.info.Blocked && st.info.Overflow {
+		if st.info.Blocked && st.info.Overflow && !rd.aborted.Load() {
 			rd.stallOverflow(st)
 		}
 	}
